@@ -85,7 +85,7 @@ chk("C10", "model-based PBT: programs over up to 180 live variables of every sto
     "DESIGN.md section 2 C10")
 
 chk("C11", "history-based PBT: generated compilation histories (builds, pure queries, compiles, failing compiles, router compiles) replayed in fresh subprocesses under several hash seeds vs a pristine process; plus an in-process Hypothesis RuleBasedStateMachine with a recompile invariant",
-    "Each generated history is executed in a fresh interpreter (subprocess) under PYTHONHASHSEED 0/1/4242 and ends by compiling the target twice; both texts must equal the text of a pristine process that only compiled the target. An in-process rule-based state machine additionally checks that every (program, options) always compiles to the text it compiled to first, also after failing compilations, and that repeated Router.compile_program is stable (finding F12 lists where it is not).",
+    "Each generated history is executed in a fresh interpreter (subprocess) under PYTHONHASHSEED 0/1/4242 and ends by compiling the target twice; both texts must equal the text of a pristine process that only compiled the target. An in-process rule-based state machine additionally checks that every (program, options) always compiles to the text it compiled to first, also after failing compilations, and that repeated Router.compile_program is stable (finding F12 lists where it is not). A third family builds one expression object and compiles it under 2..5 option sets in turn; each text must equal that of a freshly built copy (finding F24 lists where it is not); hand-written targets cover inner method calls with transaction arguments and programs whose only correct outcome is an error.",
     "Trusts subprocess isolation and the worker script (public PyTeal calls only).",
     "DESIGN.md section 2 C11")
 
